@@ -181,12 +181,50 @@ func init() {
 		match: func(o *Obligation) bool {
 			return o.Fn == "controller.Controller.SetReplicaMode" && strings.HasPrefix(o.Kind, "lockinv.status")
 		},
+		scripted: true,
 		pkg: "controller",
 		gen: func(o *Obligation, vals map[string]string) (string, bool) {
 			modes, addrOf, n, ok := modelReplicas(vals, "c.replicas@lock1")
 			rf, ok2 := intVal(vals, "c.ReplicationFactor")
 			if !ok || !ok2 || n == 0 || rf < 0 || rf > 64 {
-				return "", false
+				// no model (the solver gave none): scripted sweep over small replica lists, every member and every mode
+				return ctlMock + `
+func TestZZReplay(t *testing.T) {
+	all := []types.Mode{types.RW, types.WO, types.ERR}
+	for n := 1; n <= 3; n++ {
+		for mask := 0; mask < 1<<uint(n); mask++ {
+			for target := 0; target < n; target++ {
+				for _, mode := range all {
+					modes := make([]types.Mode, n)
+					for i := range modes {
+						modes[i] = types.RW
+						if mask&(1<<uint(i)) != 0 {
+							modes[i] = types.WO
+						}
+					}
+					c, _ := zzController(n, modes, 1<<30)
+					addr := c.replicas[target].Address
+					before := fmt.Sprintf("%+v RO=%v RWcount=%d", c.replicas, c.ReadOnly, c.RWReplicaCount)
+					err := c.SetReplicaMode(addr, mode)
+					rw := 0
+					for _, r := range c.replicas {
+						if r.Mode == types.RW {
+							rw++
+						}
+					}
+					wantRO := rw < (c.ReplicationFactor+c.quorumReplicaCount)/2+1
+					if c.RWReplicaCount != rw || c.ReadOnly != wantRO {
+						t.Logf("RF=%d before: %s; SetReplicaMode(%q,%q) err=%v; after: %+v RO=%v RWcount=%d (actual RW entries %d, read-only should be %v)",
+							c.ReplicationFactor, before, addr, mode, err, c.replicas, c.ReadOnly, c.RWReplicaCount, rw, wantRO)
+						t.Fatalf("REPLAY-REPRODUCED: after the call returned (lock released) the reported RW count / read-only status disagree with the replica list")
+					}
+				}
+			}
+		}
+	}
+	t.Log("REPLAY-NOT-REPRODUCED")
+}
+`, true
 			}
 			addr, known := addrOf[vals["address"]]
 			if !known {
